@@ -21,6 +21,9 @@ class Obligation:
         self.note = note
         self.backend = backend
         self.witness = None
+        self.formulas = None
+        self.witness_fn = None
+        self.minimize = []
 
     def to_json(self):
         d = {"name": self.name, "verdict": self.verdict, "seconds": round(self.secs, 4),
@@ -37,7 +40,10 @@ class PathRun:
         self.explorer = explorer
         self.decisions = list(decisions)
         self.trace = []
+        # E-matching only (mbqi off): `unsat` is a proof; `sat` is a *candidate*
+        # counter-model that must be confirmed (native replay or a complete solver run)
         self.solver = smt.new_solver(explorer.timeout_ms)
+        self.solver.set("mbqi", False)
         self.obligations = []
         self.assumed = []
         self.notes = []
@@ -53,7 +59,13 @@ class PathRun:
         self.assumed.append(f)
 
     def sat(self, cond):
-        r = smt.check(self.solver, cond)
+        """May the path condition hold together with `cond`?  unsat answers are
+        proofs (pruning is sound); anything else counts as feasible."""
+        self.solver.set("timeout", 3000)
+        try:
+            r = smt.check(self.solver, cond)
+        finally:
+            self.solver.set("timeout", self.explorer.timeout_ms)
         return r != z3.unsat
 
     def fork(self, cond):
@@ -121,8 +133,12 @@ class PathRun:
         secs = time.time() - t0
         model = None
         wit = None
-        if r == z3.sat:
-            m = self.solver.model()
+        if r != z3.unsat:
+            try:
+                m = self.minimized_model()
+            except z3.Z3Exception:
+                m = None
+        if r != z3.unsat and m is not None:
             model = model_to_json(m)
             if witness is not None:
                 try:
@@ -144,16 +160,43 @@ class PathRun:
                     note = (note or "") + " [cvc5]"
         self.solver.pop()
         smt.STATS.add(smt.Query(name, str(r), secs, "z3", "obligation"))
-        verdict = {z3.unsat: "discharged", z3.sat: "refuted"}.get(r, "undecided")
+        verdict = "discharged" if r == z3.unsat else ("refuted" if r == z3.sat else "undecided")
         ob = Obligation(name, verdict, secs, self.path_id(), model, None,
                         note if verdict != "undecided" else "solver: %s" % reason)
         ob.witness = wit
-        self.obligations.append(ob)
         if verdict != "discharged":
-            # continue under the assumption so later obligations are independent
-            pass
-        self.solver.add(goal)
+            ob.formulas = (list(self.assumed), goal)
+            ob.witness_fn = witness or self.explorer.witness
+            ob.minimize = list(self.explorer.minimize)
+        self.obligations.append(ob)
+        # continue under the (quantifier-free) goal so that later obligations do not
+        # re-report the same failure; quantified goals are not added (matching loops)
+        if not has_quantifier(goal):
+            self.assume(goal)
         return ob
+
+    def minimized_model(self):
+        """Prefer small counter-models: try the explorer's size bounds."""
+        m = self.solver.model()
+        for bound in (2, 4):
+            terms = [t for t in self.explorer.minimize]
+            if not terms:
+                break
+            self.solver.push()
+            for t in terms:
+                self.solver.add(t <= bound)
+            self.solver.set("timeout", 3000)
+            r = self.solver.check()
+            self.solver.set("timeout", self.explorer.timeout_ms)
+            if r != z3.unsat:
+                try:
+                    m = self.solver.model()
+                    self.solver.pop()
+                    break
+                except z3.Z3Exception:
+                    pass
+            self.solver.pop()
+        return m
 
     def fail(self, name, note, witness=None):
         """An obligation that fails by reaching this point (path is feasible)."""
@@ -163,8 +206,13 @@ class PathRun:
             raise Infeasible()
         model = None
         wit = None
-        if r == z3.sat:
-            m = self.solver.model()
+        m = None
+        if r != z3.unsat:
+            try:
+                m = self.minimized_model()
+            except z3.Z3Exception:
+                m = None
+        if m is not None:
             model = model_to_json(m)
             w = witness or self.explorer.witness
             if w is not None:
@@ -174,14 +222,53 @@ class PathRun:
                     wit = {"witness_error": repr(e)}
         ob = Obligation(name, "refuted" if r == z3.sat else "undecided", 0.0, self.path_id(), model, None, note)
         ob.witness = wit
+        ob.formulas = (list(self.assumed), z3.BoolVal(False))
+        ob.witness_fn = witness or self.explorer.witness
+        ob.minimize = list(self.explorer.minimize)
         self.obligations.append(ob)
         return ob
+
+    def canary(self, name, goal):
+        """A deliberately false claim pushed through the same pipeline: it must NOT be
+        provable (guards against a contradictory path condition / vacuous harness)."""
+        self.solver.push()
+        self.solver.add(z3.Not(goal))
+        r = self.solver.check()
+        self.solver.pop()
+        self.explorer.canaries.append({"name": self.explorer.prefix + name, "solver": str(r), "ok": r != z3.unsat,
+                                       "path": self.path_id()})
 
     def cover(self, name):
         """Reachability check (vacuity guard): the path condition is satisfiable here."""
         r = self.solver.check()
         self.explorer.covers.append((self.explorer.prefix + name, str(r), self.path_id()))
         return r == z3.sat
+
+
+_qcache = {}
+
+
+def has_quantifier(f):
+    if isinstance(f, bool):
+        return False
+    k = f.get_id()
+    if k in _qcache:
+        return _qcache[k]
+    seen = set()
+    stack = [f]
+    r = False
+    while stack:
+        t = stack.pop()
+        i = t.get_id()
+        if i in seen:
+            continue
+        seen.add(i)
+        if z3.is_quantifier(t):
+            r = True
+            break
+        stack.extend(t.children())
+    _qcache[k] = r
+    return r
 
 
 def model_to_json(m, limit=60):
@@ -220,6 +307,8 @@ class Explorer:
         self.alt_solver = alt_solver
         self.source_cache = source_cache if source_cache is not None else {}
         self.path_outcomes = []
+        self.minimize = []
+        self.canaries = []
 
     def run(self):
         self.pending = [[]]
